@@ -309,3 +309,28 @@ PROPS["C19"] = Prop(
          "comparisons on both sides, abs, signum, % in the three operand forms, zero/one neutrality, sums of length 0..8 "
          "(typed and through Number). non-trivial = every op line",
     classify=_cls_c19, exhaustive=lambda tier: False, trusted=_dual_trusted, assumptions=_dual_assume)
+
+
+def _cls_formula(t, impl):
+    if t[0] not in ("eval", "evalgrad2"):
+        return None, False
+    ops = [x for x in t[1:] if not (x.startswith("L") or x.startswith("K"))]
+    leaves = [x for x in t[1:] if x.startswith("L")]
+    kind = _kind_of(impl) if t[0] == "eval" else "E2"
+    depthish = min(len(ops), 12)
+    return "%s:%s:ops=%d" % (t[0], kind, depthish), len(ops) >= 2 and len(leaves) >= 2
+
+
+_formula_rule = ("random formulas (depth 1-6) over + - * / neg pow exp log ncdf nicdf abs on 1-5 leaves (dual numbers with 0-4 "
+                 "names from a pool of 6, some sharing storage; floats; constants on either side), values steered inside the "
+                 "differentiable domain, owned/borrowed operand forms varied by position; compared close-float (1e-9 rel): "
+                 "value, gradient by name%s. non-trivial = >= 2 operators and >= 2 dual leaves")
+
+PROPS["C01"] = Prop(rule=_formula_rule % "", classify=_cls_formula, mode="close", exhaustive=lambda tier: False,
+                    trusted=_dual_trusted + ["statrs erfc/erfc_inv ported to Lean Float for the driver; Φ, Φ⁻¹ abstract in the theorems",
+                                             "glibc exp/log/pow on both sides"],
+                    assumptions=_dual_assume + ["theorems hold where the formula is differentiable (Dom)"])
+PROPS["C02"] = Prop(rule=_formula_rule % ", Hessian by name pair, gradient2 read-back, conversion down to first order",
+                    classify=_cls_formula, mode="close", exhaustive=lambda tier: False,
+                    trusted=_dual_trusted + ["statrs erfc/erfc_inv ported to Lean Float for the driver"],
+                    assumptions=_dual_assume)
